@@ -121,6 +121,7 @@ class Ctx:
         self.model = None
         self.obligations = []
         self.notes = []
+        self.decided = {}
         self.solver.push()
         self._axioms_live = set()
         self._axioms_lvl = []
@@ -154,6 +155,13 @@ class Ctx:
             return True
         if z3.is_false(cond):
             return False
+        # a condition already decided on this path keeps its outcome (the decision is part of the path condition);
+        # no solver call, no new trace entry - deterministic, so replays of a prefix skip exactly the same ones
+        cid = cond.get_id()
+        if tag is None:
+            known = self.decided.get(cid)
+            if known is not None:
+                return known
         d = self.depth
         self.depth += 1
         if d < len(self.forced):
@@ -163,6 +171,8 @@ class Ctx:
                 v = v[1]
             self._push_pc(cond if v else z3.Not(cond))
             self.model = None
+            if tag is None:
+                self.decided[cid] = v
             return v
         if d > MAX_DEPTH:
             raise Unsupported("path deeper than %d decisions" % MAX_DEPTH)
@@ -199,6 +209,8 @@ class Ctx:
             raise PathAbort()
         self.trace.append(v if tag is None else (tag, v))
         self._push_pc(cond if v else ncond)
+        if tag is None:
+            self.decided[cid] = v
         return v
 
     def assume(self, cond):
